@@ -54,7 +54,7 @@ func l0(ctx *Ctx, r *Result, rule string, t *ValidatorTable) bool {
 			continue
 		}
 		init := pa.Next[t.ErrsPhi]
-		good := init != nil && (init.IsConst("nil") || (init.Op == "lit" && len(init.Args) == 0) || (init.Op == "mkslice" && init.Args[0].IsConst("0")))
+		good := init != nil && isEmptySliceTerm(init)
 		ok = r.check(good, rule, name+": errs starts empty", ctx.P.Pos(t.Fn.Pos()), "the accumulated error list does not start empty: "+init.Key(), 1) && ok
 	}
 	// monotone: every iteration passes errs on unchanged or appended with non-nil errors
